@@ -26,6 +26,27 @@ CLAIMED = {
         note=TRUST,
         technique="VC generation by symbolic execution + exact polynomial identity (normaliser) + z3",
         ref="5-C20"),
+    "C01": dict(
+        text="Contract-based deductive proof at caller level: the REAL simulator classes (constructor + time_step) are executed "
+             "with symbolic grid size, domain length, viscosity, density, dt, free stream, arbitrary public state and garbage "
+             "scratch buffers; all Eulerian kernels run for real, the Poisson solver is replaced by its contract (opaque solution, "
+             "call-site obligations on construction and arguments). Vorticity, velocity, forcing and time are compared with the "
+             "documented operator sequence written as spec functions, position class by position class (complete partition of "
+             "all cells of all grids with n >= 2R+1), exact polynomial identities. Configurations: 2-D all 20; 3-D quick subset "
+             "(all forcing/free-stream/width without filter, both solvers, filters of order 1-2), thorough all 280; passive 3.",
+        note=TRUST + " Assumed: Poisson solver contract (the FFT solver class is verified against it in the C03 units when "
+             "claimed; until then assumed), grid extents >= 2R+1 (smaller grids: bounded native runs only).",
+        technique="symbolic execution of the real simulator step with callee contract for the Poisson solve + exact polynomial identity",
+        ref="5-C01"),
+    "C04": dict(
+        text="Contract-based deductive proof of the conservation FORM from the public closures (single-valued ENO3 face flux in "
+             "every upwind branch, every axis, 2-D/3-D; diffusion and curl-type forcing updates as telescoping differences), all "
+             "values and shapes. Grid-sum invariance: exhaustive symbolic check on enumerated small grids (bounded shapes, all "
+             "values) plus the telescoping lemma M1 for general shapes; the step-level operator sequence is the C01 proof.",
+        note=TRUST + " Trusted lemma M1 (telescoping sums over a box). The step-level reach/margin bookkeeping is argued from the "
+             "C01 operator sequence, not separately discharged.",
+        technique="symbolic execution + exact polynomial identity; bounded-shape exhaustive sums",
+        ref="5-C04"),
     "C05": dict(
         text="Contract-based deductive proof: each differential closure is run on a field defined as a degree-2 polynomial "
              "with SYMBOLIC coefficients sampled at the simulator's cell centres; its value at a symbolic interior cell equals "
@@ -34,6 +55,25 @@ CLAIMED = {
         note=TRUST + " Filter Laplacians are observed through the public order-1 filter closures.",
         technique="symbolic execution of the real closures on polynomial-defined fields + exact polynomial identity",
         ref="5-C05"),
+    "C06": dict(
+        text="Contract-based deductive proof of the real support / cosine / Peskin weight closures and the interpolation closure "
+             "(numba neutralised) for a marker in a SYMBOLIC cell of a grid of symbolic extent with symbolic in-cell offset "
+             "(on-centre and strictly-inside cases both explored) and symbolic dx: nearest index, signed distances, closed-form "
+             "weights, non-negativity, partition of unity, Peskin first moment, exact interpolation of constants / affine fields.",
+        note=TRUST + " sqrt axiomatised exactly (t>=0, t^2=arg); cos by quarter-turn reduction and M6 facts. Marker counts 1-2 "
+             "executed; independence of markers follows from the closed forms (each marker's outputs mention only its inputs).",
+        technique="symbolic execution of the real njit closures on object arrays + normaliser + z3",
+        ref="5-C06"),
+    "C07": dict(
+        text="Contract-based deductive proof: interpolation closed form and the STRONGEST postcondition of spreading over the "
+             "whole grid (every cell accumulates exactly its window contributions; overlapping/identical supports; prior content "
+             "kept) for arbitrary weight arrays, scalar and vector, 2-D/3-D, markers in symbolic cells. Adjointness, total force "
+             "and first moment are corollaries of the two closed forms using the same weights and window (sum exchange lemma) "
+             "together with C06.",
+        note=TRUST + " Two markers executed (all relative placements, since cells are symbolic); the marker loop for N>2 by the "
+             "additive per-marker postcondition.",
+        technique="symbolic execution of the real njit closures + z3 (LIA + linear real arithmetic)",
+        ref="5-C07"),
     "C12": dict(
         text="Contract-based deductive proof: the real curl/divergence/update closures are COMPOSED symbolically on symbolic "
              "fields of symbolic extent; div(curl)=0, curl-type updates leave div unchanged, 2-D stream-function velocity "
@@ -42,6 +82,14 @@ CLAIMED = {
         note=TRUST,
         technique="symbolic composition of the real closures + exact polynomial identity (normaliser)",
         ref="5-C12"),
+    "C15": dict(
+        text="Contract-based deductive proof by dependence analysis at EVERY kernel call performed by every contract unit "
+             "(all generators, the three simulators' steps with their real buffer wiring, filters, SSP-RK3): written view vs each "
+             "read access of the same buffer must not collide across different cells (LIA query, or decided by buffer identity); "
+             "every kernel writes at the centre cell only; spreading generators are serial (AST obligations).",
+        note=TRUST + " Not covered: FFTW's own multi-threaded plans; fastmath reassociation inside one numba reduction.",
+        technique="read/write-set extraction from the real assignment lists at every call + LIA (z3) + AST obligations",
+        ref="5-C15"),
     "C16": dict(
         text="Contract-based deductive proof of the real compute_advection_diffusion_stable_timestep for all velocity fields, "
              "dx, cfl, nu > 0, prefactor in (0,1] (positivity, linearity, both limits; np.amax by contract), and of the maximum "
